@@ -192,7 +192,9 @@ def run_tunnel(tag, cfg, seed, plan):
     extra = []
     if cfg.get("lb"):
         extra.append("-c")
-    t.srv = sim.server(extra=extra)
+    if cfg.get("srv_m"):
+        extra += ["-m", str(cfg["srv_m"])]
+    t.srv = sim.server(extra=extra, tun=cfg.get("tun"))
     if not t.srv.alive():
         t.why = "server-died-at-start:" + sim.health(t.srv)
         return t
